@@ -299,7 +299,7 @@ class CallMixin:
                 yield from o.pygen
                 return
             if isinstance(o, DictObj):
-                yield from list(o.items.keys())
+                yield from [k.e if isinstance(k, ZKey) else k for k in o.items.keys()]
                 return
             if isinstance(o, SetObj):
                 yield from self.iter_set(o, node)
